@@ -5,7 +5,7 @@ from . import auto
 
 PROP = 'C15'
 PREDICATE = 'C15'
-LEAN_TARGETS = ['LLTD.Props.C15']
+LEAN_TARGETS = ['LLTD.Props.C15', 'LLTD.Props.C15T']
 VARIANT = 'plain'
 EXHAUSTIVE = True
 RULE = ('every tier: all (state, input in -128..255 and boundary ints, elapsed in {0,t-1,t,t+1,10t}) single steps of '
